@@ -24,6 +24,24 @@ EINTR_ADV = [0, 1, 1, 999, 1000, 1000, 1001, 1500, 2000, 999999, 1000000, 250000
 USECS = [0, 0, 1, 999, 1000, 1001, 1500, 2000, 999999, 1000000, 1000001, 2500000, 2147483000000, 2147483000001, 5000,
          2200000000 * 10**6, 4300000000 * 10**6]     # beyond 2^31 and 2^32 seconds: comparisons must not truncate
 
+# the saturation point of events_network_select's conversion to poll's int milliseconds (tv2ms): tv_sec >= INT_MAX / 1000 =
+# 2147483.  Finding F12 (notes/F12-fix.md): the code returned INT_MAX ms there, up to 647 ms more than the time to the deadline
+# (tv_sec == 2147483, tv_usec <= 646000; from 647001 us on INT_MAX ms is less than the exact value).  Profile "far": amounts of
+# time left 2147482..2147485 s + every microsecond boundary, reached directly, by clock advances, by resets, and after EINTR.
+FAR_SECS = [2147482, 2147483, 2147483, 2147483, 2147484, 2147485]
+FAR_USECS = [0, 0, 1, 999, 1000, 1001, 646000, 646001, 646999, 647000, 647001, 999000, 999001, 999999]
+FAR_ADV = [0, 1, 999, 1000, 1001, 353000, 353001, 500000, 647000, 999999, 1000000, 1000001, 2500000]
+BEYOND = [2147483648 * 10**6, 2200000000 * 10**6, 3000000000 * 10**6, 4300000000 * 10**6]
+# a signal whose handler calls events_interrupt() while the loop is inside poll (answer `pollsig`, outcome `intr`): at any
+# position of a poll script, with any timeout.  The C05 monitor demands that a request made during a waiting poll stops
+# dispatching at once, so the answers that FOLLOW matter: descriptors that are ready, clock advances that expire timers --
+# what a loop that tests the flag too late would pick up.  VERIF_EVENTS_SIGINTR=0 switches these answers off.
+SIGINTR = os.environ.get("VERIF_EVENTS_SIGINTR", "1") != "0"
+
+
+def far_left(r):
+    return r.choice(FAR_SECS) * 10**6 + r.choice(FAR_USECS)
+
 
 class G:
     """One case.  The generator keeps a rough picture of what is registered (exactness is not
@@ -119,6 +137,8 @@ class G:
 
     def usec(self):
         r = self.r
+        if self.profile == "far" and r.chance(7, 8):
+            return far_left(r) if r.chance(5, 6) else r.choice(BEYOND)
         if r.chance(1, 3):
             return r.choice([0, 1000, 1000, 2000])            # ties
         return r.choice(USECS)
@@ -138,7 +158,7 @@ class G:
     def top_reg(self):
         r = self.r
         w = {"net": [("imm", 2), ("net", 10), ("tm", 2)], "imm": [("imm", 10), ("net", 2), ("tm", 2)],
-             "tm": [("imm", 2), ("net", 2), ("tm", 10)]}.get(self.profile, [("imm", 5), ("net", 6), ("tm", 4)])
+             "tm": [("imm", 2), ("net", 2), ("tm", 10)], "far": [("imm", 1), ("net", 3), ("tm", 10)]}.get(self.profile, [("imm", 5), ("net", 6), ("tm", 4)])
         k = r.weighted(w)
         i = self.fresh()
         self.make_script(i)
@@ -177,7 +197,7 @@ class G:
         elif k == "reset_tm":
             self.ops.append("reset_tm %d" % self.pick_id())
         elif k == "clock":
-            self.ops.append("clock %d" % r.choice([1, 500, 999, 1000, 1001, 1000000, 2500000]))
+            self.ops.append("clock %d" % r.choice(FAR_ADV if self.profile == "far" else [1, 500, 999, 1000, 1001, 1000000, 2500000]))
         elif k == "interrupt":
             self.ops.append("interrupt")
         elif k == "rereg" and self.nid:
@@ -191,12 +211,109 @@ class G:
             else:
                 self.ops.append("reg_tm %d %d" % (i, self.usec()))
 
+    def far_preamble(self):
+        """one timer (no script) whose time left at the first blocking poll -- or at the poll after an EINTR -- is `left`"""
+        r = self.r
+        left = far_left(r)
+        if r.chance(1, 2):
+            self.ops.append("clock %d" % r.choice([1, 999999, 1500000, 2147483647001]))     # microseconds of the clock != 0: carries
+        i = self.fresh()
+        self.live_tm.append(i)
+        self.tm_ids.append(i)
+        d1, d2 = r.choice(FAR_ADV), r.choice(FAR_ADV)
+        k = r.weighted([("direct", 25), ("clock", 15), ("reset", 10), ("eintr", 25), ("eintr2", 15), ("eintr-sat", 10),
+                        ("sig", 8), ("eintr-sig", 8), ("sig-sat", 4)])
+        if not EINTR_TIME and k.startswith("eintr"):
+            k = "clock"
+        if not SIGINTR and "sig" in k:
+            k = "direct"
+        if k == "direct":
+            self.ops.append("reg_tm %d %d" % (i, left))
+        elif k == "clock":
+            self.ops += ["reg_tm %d %d" % (i, left + d1), "clock %d" % d1]
+        elif k == "reset":
+            self.ops += ["reg_tm %d %d" % (i, left), "clock %d" % d1, "reset_tm %d" % i]
+        elif k == "eintr":
+            # the first timeout is computed from left + d1, the one after the signal from left
+            self.ops += ["reg_tm %d %d" % (i, left + d1), "pollintr %d" % d1]
+        elif k == "eintr2":
+            self.ops += ["reg_tm %d %d" % (i, left + d1 + d2), "pollintr %d" % d1, "pollintr %d" % d2]
+        elif k == "sig":
+            # the handler's events_interrupt() d1 us into the far wait; the next call waits for `left`
+            self.ops += ["reg_tm %d %d" % (i, left + d1), "pollsig %d" % d1]
+        elif k == "eintr-sig":
+            # a plain EINTR, then -- during the wait for what is left -- the interrupting signal
+            self.ops += ["reg_tm %d %d" % (i, left + d1 + d2), "pollintr %d" % d1, "pollsig %d" % d2]
+        elif k == "sig-sat":
+            # the interrupting signal arrives when a wait above the saturation point has `left` to go / at the deadline
+            far = r.choice([2147490 * 10**6, 2147483648 * 10**6, 3000000000 * 10**6])
+            self.ops += ["reg_tm %d %d" % (i, far), "pollsig %d" % (far - left if r.chance(3, 4) else far)]
+        else:
+            # a wait that starts above the saturation point and is interrupted when `left` remains
+            far = r.choice([2147490 * 10**6, 2147483648 * 10**6, 3000000000 * 10**6])
+            self.ops += ["reg_tm %d %d" % (i, far), "pollintr %d" % (far - left - d1), "pollintr %d" % d1]
+        if "sig" in k and r.chance(1, 2):
+            self.ops.append("poll 0 -")        # what a loop that went on after the request would be answered
+        self.ops.append("run")
+        if r.chance(1, 2):
+            self.ops.append("pollintr %d" % r.choice(FAR_ADV))       # during the wait for what the first call left over
+        self.ops.append("run")
+
+    def ready_answer(self, adv):
+        """an answered poll: some of the descriptors (most likely registered ones) are ready"""
+        r = self.r
+        fds = []
+        pool = [fd for (fd, _) in sorted(self.live_net)] if self.live_net and r.chance(3, 4) else list(self.fdpool)
+        pool = sorted(set(pool))
+        for _ in range(min(r.weighted([(1, 50), (2, 30), (4, 20)]), len(pool))):
+            fd = pool.pop(r.below(len(pool)))
+            fds.append("%d:%s" % (fd, r.weighted(BITS)))
+        return "poll %d %s" % (adv, ",".join(fds) or "-")
+
+    def sig_answer(self, front=False):
+        """a signal handler calls events_interrupt() during a poll: at every position of a poll script (first answer of a
+        call, after plain EINTRs, after an answered poll = during the non-blocking look between two callbacks), after any
+        amount of time (also exactly / just before / after a timer's deadline), followed by plain EINTRs, by descriptors
+        becoming ready and by clock advances that expire timers -- what a loop that does not stop at once would act on"""
+        r = self.r
+        advs = FAR_ADV if self.profile == "far" else EINTR_ADV
+        k = r.weighted([("first", 30), ("after-eintr", 25), ("after-answer", 0 if front else 20), ("chain", 0 if front else 10),
+                        ("twice", 5), ("before-eintr", 10)])
+        if k == "after-eintr":
+            for _ in range(r.weighted([(1, 70), (2, 20), (3, 10)])):
+                self.ops.append("pollintr %d" % (r.choice(advs) if EINTR_TIME else 0))
+        elif k == "after-answer":
+            # the blocking poll is answered (a callback runs), the signal hits the zero-timeout poll after it
+            self.ops.append(self.ready_answer(r.choice([0, 1, 1000, 1500, 1000000])))
+            if r.chance(1, 3):
+                self.ops.append("pollintr 0")
+        elif k == "chain":
+            self.ops.append("pollintr %d" % (r.choice(advs) if EINTR_TIME else 0))
+            self.ops.append(self.ready_answer(0) if r.chance(1, 2) else "poll 0 -")
+        self.ops.append("pollsig %d" % r.choice(advs + [0, 0, 1000, 2000]))
+        if k == "twice":
+            self.ops.append("pollsig %d" % r.choice(advs))
+        if k == "before-eintr":
+            self.ops.append("pollintr %d" % (r.choice(advs) if EINTR_TIME else 0))
+        # what comes next -- in a correct loop it answers the NEXT call's polls
+        nxt = r.weighted([("ready", 45), ("ready-later", 15), ("expire", 20), ("nothing", 20)])
+        if nxt == "ready":
+            self.ops.append(self.ready_answer(0))
+        elif nxt == "ready-later":
+            self.ops.append("poll 0 -")
+            self.ops.append(self.ready_answer(r.choice([0, 1000])))
+        elif nxt == "expire":
+            self.ops.append("poll %d -" % r.choice([1000, 1001, 2000, 1000000, 2500000, 4300000000 * 10**6]))
+
     def poll_answer(self):
         r = self.r
-        if r.chance(1, 16):
+        if SIGINTR and r.chance(1, 8 if self.profile == "far" else 14):
+            self.sig_answer()
+            return
+        if r.chance(1, 4 if self.profile == "far" else 16):
             # one signal or several in a row (the wait is then cut down step by step)
             for _ in range(r.weighted([(1, 60), (2, 25), (4, 15)])):
-                self.ops.append("pollintr %d" % (r.choice(EINTR_ADV) if EINTR_TIME else 0))
+                self.ops.append("pollintr %d" % (r.choice(FAR_ADV if self.profile == "far" else EINTR_ADV) if EINTR_TIME else 0))
             return
         adv = r.choice([0, 0, 1, 999, 1000, 1001, 1500, 1000000, 3000000])
         k = r.weighted([(0, 10), (1, 25), (2, 20), (3, 15), (6, 10), (len(self.fdpool), 8)])
@@ -226,9 +343,16 @@ def gen_case(r, profile, tier):
     nreg = r.range(1, 6) if nfd <= 4 else r.range(nfd // 2, nfd + 10)
     if profile == "imm":
         nreg = r.range(4, 70)
+    if profile == "far":
+        g.far_preamble()
+        nreg = r.range(0, 4)
     for _ in range(nreg):
         g.top_reg()
     for _ in range(r.range(1, 5)):
+        if SIGINTR and r.chance(1, 6):
+            # the first answer of this call's script (if the previous calls used up theirs): the signal hits the poll
+            # that may block -- infinite without timers, finite with them
+            g.sig_answer(front=True)
         for _ in range(r.weighted([(0, 30), (1, 30), (2, 25), (4, 15)])):
             g.poll_answer()
         g.ops.append("run")
@@ -244,7 +368,7 @@ def gen_case(r, profile, tier):
     return g.ops
 
 
-PROFILES = [("mixed", 30), ("net", 25), ("imm", 12), ("tm", 15), ("status", 18)]
+PROFILES = [("mixed", 30), ("net", 25), ("imm", 12), ("tm", 15), ("status", 18), ("far", 8)]
 
 
 def gen_events(rng, tier, mult):
@@ -277,11 +401,16 @@ def classify(case, out):
         polls = 0
         kinds = set()
         prev_eintr = None
+        prev_eintr_far = False
+        prev_kind = None
+        sig_polls = None
         for t in toks:
             f = t.split(":")
             if f[0] == "cb":
                 incb = True
                 fired += 1
+                if sig_polls is not None:
+                    tags.append("poll:intr:then-callback")      # only legal after a request during the non-blocking poll
             elif f[0] == "end":
                 incb = False
                 if f[1] not in ("0",):
@@ -297,6 +426,29 @@ def classify(case, out):
                     if prev_eintr not in ("0", "-1"):
                         tags.append("poll:after-eintr:" + ("expired" if f[1] == "0" else "same" if f[1] == prev_eintr else "less"))
                 prev_eintr = f[1] if f[-1] == "eintr" else None
+                if f[1].isdigit() and int(f[1]) >= 2147482000:
+                    # at the saturation point of the ms conversion (INT_MAX / 1000 s): just below it / the saturated value /
+                    # INT_MAX (what the code asked for before the repair of F12) / anything else
+                    t = int(f[1])
+                    tags.append("poll:far:" + ("below" if t < 2147483000 else "=2147483000" if t == 2147483000 else
+                                               "=INT_MAX" if t == 2147483647 else "other")
+                                + ("+after-eintr" if prev_eintr_far else ""))
+                prev_eintr_far = f[-1] == "eintr"
+                if f[-1] == "intr":
+                    # the handler's events_interrupt() during a poll with which timeout, after what, with how much time passing
+                    tags.append("poll:intr@" + ("zero" if f[1] == "0" else "infinite" if f[1] == "-1" else "finite"))
+                    if int(f[1]) >= 2147482000:
+                        tags.append("poll:intr@finite:far")
+                    if prev_kind == "eintr":
+                        tags.append("poll:intr:after-eintr")
+                    elif prev_kind == "ok":
+                        tags.append("poll:intr:after-answer")
+                    if f[2] != "0":
+                        tags.append("poll:intr+time")
+                    if fired:
+                        tags.append("poll:intr:after-callback")
+                    sig_polls = polls
+                prev_kind = f[-1]
                 if f[-1] != "ok":
                     tags.append("poll:" + f[-1])
                 else:
@@ -326,11 +478,16 @@ def component(monitor):
         "events", "h_events.c", EVENT_SRCS, ["events"], gen_events,
         nontrivial=nontrivial,
         rule="programs of 1..80 registrations (immediate with all 32 priorities / socket read+write on 1..40 descriptors / "
-             "timers with tied deadlines, 0, ms boundaries, INT_MAX/1000 s) whose callbacks run scripts (register, cancel incl. the "
+             "timers with tied deadlines, 0, ms boundaries, INT_MAX/1000 s; profile far: 2147482..2147485 s + 0/1/999/1000/1001/646000/646001/"
+             "646999/647000/647001/999000/999001/999999 us left at the first poll, after clock advances, resets and EINTRs, and deadlines "
+             "beyond INT_MAX ms) whose callbacks run scripts (register, cancel incl. the "
              "descriptor being scanned and the last pollfd entries, re-arm themselves, reset, interrupt, clock, non-zero status), "
              "interleaved with scripted poll answers (ready sets with ERR/HUP, EINTR -- also several in a row, with 0 / <1 ms / "
-             "exactly 1 ms / whole timer periods passing before the signal --, clock advance, level-triggered repeats) and "
-             "events_run calls; profiles mixed/net/imm/tm/status; non-trivial = >= 2 runs and >= 2 register/cancel/reset calls; "
+             "exactly 1 ms / whole timer periods passing before the signal --, a signal whose handler calls events_interrupt() "
+             "during the poll -- first answer of a call / after EINTRs / after an answered poll / twice, with infinite, finite "
+             "(also the far timers) and zero timeouts, followed by EINTRs, ready descriptors and clock advances that expire "
+             "timers --, clock advance, level-triggered repeats) and "
+             "events_run calls; profiles mixed/net/imm/tm/status/far; non-trivial = >= 2 runs and >= 2 register/cancel/reset calls; "
              "L1 = the %s monitor over the implementation's trace, L2 = equality with the model's trace and white-box state" % monitor.upper(),
         classify=classify, monitor_args=["eventsmon", monitor], ldflags=["-Wl,--wrap=poll"],
         bb_ok=True, bb_srcs=BB_SRCS)
@@ -342,7 +499,9 @@ ASSUMPTIONS = [
     "poll behaves as POSIX says: revents is a subset of events|POLLERR|POLLHUP, POLLNVAL never (descriptors are valid), "
     "every entry's revents is written on success and none on EINTR; with nothing ready it returns only after the timeout",
     "the monotonic clock never goes backwards; malloc does not fail",
-    "events_interrupt from a signal handler is modelled only at the points where the program or the blocked poll issues it (partial)",
+    "events_interrupt from a signal handler is modelled during any poll (scripted answer `pollsig`: any timeout, any position "
+    "among the other answers) and at the points where the program issues it; a signal delivered at an arbitrary instruction "
+    "outside poll is not modelled (partial)",
 ]
 TRUSTED = ["pmodel (compiled Lean model and monitors)", "harness/h_events.c (scripted poll and clock, callback scripts, guards)",
            "gcc ASan/UBSan as the detector of out-of-bounds / use-after-free in the real code",
